@@ -359,6 +359,13 @@ func c08DocHist(c *Ctx, prev string, hist bool, text string, g bool) map[string]
 			pr, _ := srv.PrepareRename(ctx, &protocol.PrepareRenameParams{TextDocumentPositionParams: tdp})
 			if pr != nil {
 				out["p"] = rngA(*pr)
+				if pr.Start.Line == uint32(li) && c08QuoteAt(line, pr.Start.Character) {
+					if strings.HasPrefix(line, "commodity ") || strings.HasPrefix(line, "P ") {
+						c.Count("prepareRename.quoted-directive-site")
+					} else {
+						c.Count("prepareRename.quoted-posting-site")
+					}
+				}
 				key := fmt.Sprint(rngA(*pr))
 				if !renamed[key] {
 					renamed[key] = true
@@ -777,6 +784,97 @@ func genJournalC08nb(r *rand.Rand, maxEntries int, nb bool) string {
 	return text
 }
 
+// c08QuoteAt: the character at UTF-16 offset u of the line is a double quote.
+func c08QuoteAt(line string, u uint32) bool {
+	n := uint32(0)
+	for _, r := range line {
+		if n == u {
+			return r == '"'
+		}
+		if r >= 0x10000 {
+			n += 2
+		} else {
+			n++
+		}
+	}
+	return false
+}
+
+// quoted symbols (the lexeme includes the quotes; blanks, letters of any script, characters
+// outside the BMP inside)
+var c08Quoted = []string{"\"AAPL 2\"", "\"😀\"", "\"𝄞x\"", "\"a 😀 b\"", "\"x y𝄞\"", "\"Кафе №1\"", "\"Ab c\""}
+
+// genJournalC08quoted: a quoted commodity that is declared (`commodity`, three inline forms,
+// with and without a comment or a format sub-directive), priced (`P`) and used in postings
+// (amount left or right, cost, assertion) of the same journal, among ordinary entries — every
+// cursor of every line is asked, so references / prepareRename / rename run on the directive
+// sites and on the posting sites of the same symbol (fix-quoted-commodity-directive.diff).
+func genJournalC08quoted(r *rand.Rand, nb bool) string {
+	g := &g08{r: r, nb: nb}
+	q := g.pick(c08Quoted)
+	var blocks [][]string
+	for n := 1 + r.IntN(2); n > 0; n-- {
+		var l string
+		switch r.IntN(4) {
+		case 0:
+			l = "commodity " + q + g.pick(c08Nums)
+		case 1:
+			l = "commodity " + g.pick(c08Nums) + " " + q
+		default:
+			l = "commodity " + q
+		}
+		if r.IntN(3) == 0 {
+			l += g.blanks(1, 3) + "; " + g.comment()
+		}
+		b := []string{l}
+		if r.IntN(3) == 0 {
+			b = append(b, g.indent()+"format "+g.pick(c08Nums)+" "+q)
+		}
+		blocks = append(blocks, b)
+	}
+	for n := r.IntN(3); n > 0; n-- {
+		l := "P " + g.date() + g.blanks(1, 2) + q + g.blanks(1, 2) + g.amount()
+		blocks = append(blocks, []string{l})
+	}
+	for n := 1 + r.IntN(2); n > 0; n-- {
+		num := g.pick(c08Nums)
+		var am string
+		switch r.IntN(3) {
+		case 0:
+			am = q + " " + num
+		case 1:
+			am = q + num
+		default:
+			am = num + g.pick([]string{" ", "  ", ""}) + q
+		}
+		l := g.indent() + g.acct() + g.gap() + am
+		switch r.IntN(4) {
+		case 0:
+			l += " @ " + g.pick(c08Nums) + " " + q
+		case 1:
+			l += " = " + g.pick(c08Nums) + " " + q
+		}
+		l += g.optComment()
+		blocks = append(blocks, []string{g.date() + " " + g.descr(), l, g.indent() + g.acct()})
+	}
+	for n := r.IntN(3); n > 0; n-- {
+		if r.IntN(2) == 0 {
+			blocks = append(blocks, g.transaction())
+		} else {
+			blocks = append(blocks, g.directive())
+		}
+	}
+	r.Shuffle(len(blocks), func(i, j int) { blocks[i], blocks[j] = blocks[j], blocks[i] })
+	var lines []string
+	for _, b := range blocks {
+		lines = append(lines, b...)
+		if r.IntN(4) != 0 {
+			lines = append(lines, "")
+		}
+	}
+	return strings.Join(lines, "\n") + "\n"
+}
+
 func genC08(c *Ctx) {
 	r := c.R
 	// fixed witnesses of the predicted shapes first (small, readable)
@@ -798,6 +896,11 @@ func genC08(c *Ctx) {
 	for i := 0; i < c.N(60, 600); i++ {
 		c.Count("docs.nonbmp-dense")
 		c.Emit("c08.doc", c08Doc(c, genJournalC08nb(r, c.N(4, 8), true), true))
+	}
+	// quoted commodities declared, priced and used (symbols outside the BMP included)
+	for i := 0; i < c.N(80, 800); i++ {
+		c.Count("docs.quoted-directive")
+		c.Emit("c08.doc", c08Doc(c, genJournalC08quoted(r, i%2 == 0), true))
 	}
 	// the same kinds of document reached through a history whose superseded diagnostics run
 	// finishes last; the older text differs in line lengths and in characters outside the BMP
